@@ -23,7 +23,7 @@ CHECKS["C05"] = dict(
          "the invariant category has rate exactly 0 and the weighted mean rate equals mu; C05_run_encloses_model is the "
          "free theorem that the interval run of the same term encloses the real value. The model is tied to "
          "site_model.py by correspondence on rates()/probabilities() (relative 1e-9) over random configurations, and the "
-         "property is also evaluated directly on the implementation's outputs.",
+         "property is also evaluated directly on the implementation's outputs. The relative rate is carried by a plain parameter, a view or a transformed parameter; the same specification dict is parsed twice.",
     note="Trusted: Coq kernel; hand-written model M_site.v (validated by correspondence only); Interval library (BigZ "
          "backend => Uint63 primitive specs) and Paramcoq output are kernel-checked; torch.pow/log rounding is modelled, "
          "not verified. Axioms: standard-library reals (sig_forall_dec, sig_not_dec, functional_extensionality_dep), classic, Uint63 primitives.",
@@ -40,7 +40,7 @@ CHECKS["C06"] = dict(
          "inverse bijections between the parameter domain and the valid time trees); C06_run_is_model is the free theorem that the "
          "exact rational run equals the real-valued model. The model is tied to the code by exact-rational "
          "correspondence on node_heights, branch_lengths(), transform(x), transform.inv(y) over all topologies <= 4 "
-         "(quick) / <= 6 (thorough) taxa plus random ones, single and batched.",
+         "(quick) / <= 6 (thorough) taxa plus random ones, single and batched. Generators include the edge of the parameter domain (ratios next to 0 and 1, root just above the oldest tip, increments of 2^-24, a 2^-22 time scale) with a round-trip tolerance that follows the conditioning.",
     note="Trusted: Coq kernel; hand-written models Tree.v/M_height.v (index assignment, bounds, transforms; validated by "
          "correspondence only); t_kind translator; dendropy parsing and torch indexing modelled not verified; batched = "
          "map over rows is checked by correspondence, not proved; cuda() cannot be executed in this sandbox (translator + "
@@ -64,7 +64,7 @@ CHECKS["C01"] = dict(
          "(relative 1e-9) over all topologies <= 4 (quick) / <= 6 (thorough) taxa plus random ones and all model/site/clock/"
          "tip combinations, trees written with their lengths in the newick string, same-object histories (evaluate, assign "
          "parameters, evaluate; time trees also as plain TimeTreeModel) against freshly built objects, and two 560/640-taxon "
-         "trees on which the plain recursion underflows (first and later evaluation).",
+         "trees on which the plain recursion underflows (first and later evaluation). Also fresh models whose site likelihoods lie inside the subnormal band of doubles (placed by bisection) against the log-domain reference.",
     note="Trusted: Coq kernel; hand-written models (validated by correspondence only); T1 and T8 translators (fail-closed ast); "
          "the transition matrices, frequencies and category rates/probabilities enter as oracle tables read through the "
          "implementation's public API (C04/C05 cover them); torch.matmul broadcasting over categories and site columns is "
@@ -84,7 +84,7 @@ CHECKS["C03"] = dict(
          "is a statement about IEEE arithmetic: it is decided by the sweep only (560/640-taxon caterpillar, balanced and "
          "random trees, tip partials and tip states, a repeated column, branch scale bisected into every part of the band "
          "[5e-324, 2.2e-308] and beyond; fresh models, up-and-down histories on one model with the flag observed, batches "
-         "mixing regimes and evaluated again after the switch, alignments mixing conserved and random columns).",
+         "mixing regimes and evaluated again after the switch, alignments mixing conserved and random columns). Also small trees (120-250 taxa) with very short branches (underflow without a large tree), fresh and in a history.",
     note="Trusted: Coq kernel; hand-written models M_like.v/M_rescale.v; T8 translator; oracle transition matrices from p_t; the "
          "floating-point accuracy clause is NOT proved (no Flocq-level analysis of batched pruning): exploration only, "
          "stated here on purpose; the rescaled tip-STATE loop is not regenerated (model + sweep only).",
@@ -104,7 +104,7 @@ CHECKS["C02"] = dict(
          "swapped children, permuted / merged columns, tip states vs partials, root moved to a random branch, the same "
          "unrooted tree with its lengths written in the newick string with the root edge split anywhere or a trifurcating "
          "root) on the implementation (|A-B| <= 1e-9 rel) with every specification also checked against the interval run of "
-         "the C01 model.",
+         "the C01 model. Also the same tree written in other ways inside the newick string (zero-length branches written out or collapsed into multifurcations below either kind of root, [&U]/[&R] rooting comments).",
     note="Trusted: as C01, plus the generator of equivalent specifications; that the three root moves generate ALL rootings of "
          "an unrooted tree is a graph-theoretic fact argued in the comment, not formalised; perm_taxa is decided by pairs only.",
     design="§6 C02")
@@ -150,7 +150,7 @@ CHECKS["C12"] = dict(
          "densities (piecewise-linear / -exponential coalescent, CTMC scale, torch priors, joint) and for EVERY density "
          "again the property is evaluated directly on the implementation: autograd vs Richardson finite differences for "
          "every parameter coordinate (half of the likelihoods with the rescaled recursion in use), missing or zero "
-         "gradients of influential parameters reported.",
+         "gradients of influential parameters reported. Also GMRFCovariate (field, precision, coefficients) and the relative rate mu (also at exactly 1.0); every coalescent family in turn in the joint scenarios, grids ending below the root.",
     note="Trusted: Coq kernel; models as in C01/C05/C06/C08/C09/C20; dP/dt oracle (autograd of p_t validated by central "
          "differences); PyTorch autograd is the thing under test, not trusted; finite differences are a numerical "
          "reference with an adaptive tolerance (implementation side only); max at ties: no claim. Axioms: standard-library "
@@ -167,7 +167,7 @@ CHECKS["C11"] = dict(
          "`wired` is evaluated on the wiring extracted from 7 composite instances covering 44 classes (listeners by "
          "introspection, read-dependencies by tracing cross-checked by perturbation); random histories on the real "
          "objects are compared with freshly built copies (the property itself) and with the model (flags, re-executed "
-         "_calls, raises).",
+         "_calls, raises). Site-model accessors are read in alternating order; a Weibull site model without invariant class is among the instance graphs.",
     note="Trusted: Coq kernel; T7 translator (cross-checked against the runtime MRO and by calling the real handlers); "
          "dependency extraction by read-tracing (mitigated by perturbation); classes that cannot be instantiated from "
          "JSON here (abstract empirical models, nn-based, variational objectives, HMC operator) are not covered.",
@@ -207,7 +207,7 @@ CHECKS["C04"] = dict(
          "rate matrix; both also for ANY real diagonalisation (C04_any_real_diagonalisation_*). Tie: T2 translator + interval-run correspondence on q(), frequencies, p_t(t) of every model class built "
          "from JSON (single, batched all / rates-only / frequencies-only), t in [0,100], against the exact scaling-and-squaring "
          "Taylor reference of the model's Q; eig oracles validated exactly; property identities (row sums, P(0)=I, semigroup, "
-         "pi P = pi, detailed balance) evaluated on the implementation.",
+         "pi P = pi, detailed balance) evaluated on the implementation. Generators draw nearly reducible rate matrices (a small non-zero eigenvalue next to the stationary zero) and nearly uniform frequencies deliberately.",
     note="Trusted: Coq kernel; T2 translator; hand-written M_subst.v; not formalised: truncation bound of the degree-20 Taylor reference (cross-checked by the semigroup identity each run); torch "
          "eigh/matrix_exp are oracles validated per case. " + AX_R,
     design="§6 C04")
@@ -222,7 +222,7 @@ CHECKS["C09"] = dict(
          "C09_run_encloses_* free theorems. Tie: T6 + interval-run correspondence (relative 1e-9) on PiecewiseConstantBirthDeath.log_prob, "
          "BDSKModel(), BirthDeath.log_prob, BirthDeathModel() over random trees n = 2..12, 1..8 epochs, boundaries on node / tip times, "
          "rho at boundaries, removal probability, relative times, +- survival; pairs (epoch, split epoch); RK4 integration of the master "
-         "equations along the tree as an implementation-side cross-check.",
+         "equations along the tree as an implementation-side cross-check. Generators include tips within 1e-7..1e-5 of a rho-sampling event, whole-number epoch boundaries written as integers, relative times with a root-edge origin.",
     note="Trusted: Coq kernel; hand-written M_bdsk.v; T6 translator; RK4 integrator (supporting only); torch searchsorted/gather "
          "modelled on exact times. Known finding kept: removal probability with several epochs raises. " + AX_R,
     design="§6 C09")
@@ -237,7 +237,7 @@ CHECKS["C10"] = dict(
          "kept as documentation of what cannot hold). Tie: tensor operations vs torch on random shapes; joint model vs "
          "JointDistributionModel on the component tensors of real models; sample_shape rules vs real objects; the property itself "
          "(batched call vs call with slice s only, relative 1e-9; unsupported combinations must raise) on a catalogue of ~60 model "
-         "classes / transformed parameters x parameter subsets x shapes [S], [S,K].",
+         "classes / transformed parameters x parameter subsets x shapes [S], [S,K]. Includes a birth-death skyline whose epochs differ between samples with a tip of one sample on the epoch boundary of another.",
     note="Trusted: Coq kernel; hand-written M_tensor.v (strides, dtype promotion, torch.cat legacy rule not modelled); the densities "
          "themselves are not re-proved here (batched = map over rows is what the slice oracle decides on the implementation). "
          "Axioms: sig_forall_dec, functional_extensionality_dep (theorem over R only).",
@@ -269,7 +269,7 @@ CHECKS["C14"] = dict(
          "exact_at_posterior, C14_run_encloses_*. Tie: "
          "objectives and conjugate densities evaluated in Coq (interval run) on the tensors p() and q() returned on the same draw, for "
          "every objective x sample shape x q in {joint, bare Distribution} x conjugate pair; each request must draw fresh samples and "
-         "evaluate p and q after the draw; objective vs log marginal on the implementation.",
+         "evaluate p and q after the draw; objective vs log marginal on the implementation. Includes a joint variational family with components of different sizes and the generic Distribution wrapper around torch's multivariate normal.",
     note="Trusted: Coq kernel; hand-written M_vi.v; lgamma / ln sqrt(2 pi) / digamma values are oracle inputs; the three "
          "parameterisations of the variational multivariate normal (covariance / precision / scale_tril) are tied on the implementation only; instrumentation by dynamic subclassing of the p/q models. " + AX_R,
     design="§6 C14")
@@ -285,7 +285,7 @@ CHECKS["C15"] = dict(
          "_refuted_for_log_exp documents the former code), tuning_direction_dual_averaging_partial; replay_encloses_model. Tie: T3 + "
          "transition records reconstructed by wrapping operator.step/accept/reject, the target and torch RNG around MCMC.run for seeded "
          "runs with every operator type and mixtures, adaptation on/off: each record replayed through the Coq step function (target "
-         "re-evaluated on a freshly built model), logger rows compared with the state, bit-identity after rejection on the implementation.",
+         "re-evaluated on a freshly built model), logger rows compared with the state, bit-identity after rejection on the implementation. Includes a chain started where the target vanishes (log density -inf).",
     note="Trusted: Coq kernel; hand-written M_mcmc.v; T3 translator; torch RNG, Dirichlet sampler, Cholesky/solve kernels are oracles; "
          "Gaussian block proposal of the GMRF operator: Hastings ratio proved (hastings_gaussian_block, proof/P_block_gauss.v), the Cholesky/solve kernels that produce the factor are oracles; dual "
          "averaging: partial. " + AX_R,
@@ -313,7 +313,7 @@ CHECKS["C16"] = dict(
          "Tie: positions written into the parameters and the returned momentum vs the exact rational run (Gaussian targets, dims 1..8, "
          "diagonal and dense SPD mass matrices, several parameters per operator) and vs the model with the gradient as an oracle table "
          "validated against autograd on a fresh model; geometric identities (forward-flip-forward, autograd Jacobian determinant, energy "
-         "error at eps, eps/2, eps/4) evaluated on the implementation.",
+         "error at eps, eps/2, eps/4) evaluated on the implementation. Includes exactly k = 1, 8, 9, 10 failed trajectories before an ordinary one (a target whose first k integrator evaluations are NaN).",
     note="Trusted: Coq kernel; hand-written M_leapfrog.v; gradient oracle tables; general-target O(eps^2) is partial "
          "(implementation-side check only). Axioms of the volume theorem: the real-number axioms, classic, functional extensionality "
          "and ClassicalEpsilon.constructive_indefinite_description (needed to give R mathcomp's choiceType). " + AX_R,
@@ -341,7 +341,7 @@ CHECKS["C19"] = dict(
          "combinations of advi/map/mcmc/hmc the emitted JSON goes (a) through the verified checker in Coq and (b) through the real "
          "loader with a tracing registry (same sequence of registry operations as the model), then joint / joint.jacobian and their "
          "gradients must be finite, constrained initial values equal the requested ones, joint.jacobian - joint = sum of independently "
-         "computed log-Jacobians, and a 2-iteration run must not raise. Runnability is an execution fact, not a theorem.",
+         "computed log-Jacobians, and a 2-iteration run must not raise. Runnability is an execution fact, not a theorem. Also: the free parameters handed to the algorithm are those of the substitution model named on the command line and no more; branch lengths kept with --keep are those of the tree file however it is rooted.",
     note="Trusted: Coq kernel; hand-written M_config.v (per-class schema: which keys are processed, which density has which random "
          "variable); t_cliclasses translator; the option sampler. 16 known findings kept (CLI defects not repaired: see "
          "known_findings.d/C19.json). Axioms: sig_forall_dec, functional_extensionality_dep (Jacobian sums over R).",
@@ -356,7 +356,7 @@ CHECKS["C20"] = dict(
          "_is_integral (given the hypothesis integral of tau^(a-1) e^(-b tau) = Gamma(a)/b^a about the lgamma oracle), C20_run_encloses_*. "
          "Tie: interval-run correspondence on GMRF() (plain, weighted, time-aware +- rescale), precision_matrix(), GMRFGammaIntegrated(), "
          "ConstantCoalescentIntegrated.log_prob, sufficient_statistics(); field length 2..50, single and batched; x^T Q x with the "
-         "PUBLISHED matrix vs GMRF() on the implementation.",
+         "PUBLISHED matrix vs GMRF() on the implementation. Includes deep trees with one coalescence following the previous event after 1e-8.",
     note="Trusted: Coq kernel; hand-written M_gmrf.v / M_suffstat.v; the Gamma-kernel normalisation is a Section hypothesis about the "
          "lgamma oracle (no Gamma function in the installed libraries); numerical quadrature cross-check is implementation-side. " + AX_R,
     design="§6 C20")
